@@ -7,16 +7,29 @@ use wv_gen::log::Rec;
 pub const CPU_BUDGET_S: u64 = 60;
 
 pub fn run(input: &[u8], rec: &mut Rec) {
-    for (label, mask) in [("default", DEFAULT_CFG), ("stable", DEFAULT_CFG | 32)] {
+    // For a third of the inputs one configuration value serves both parses: only_stable_features is flipped on
+    // that same value between them (in either direction), as a tool that keeps its configuration around does.
+    let h = wv_gen::rng::fnv64(input);
+    let shared = (h >> 17) % 3 == 0;
+    let order: [(&str, u32); 2] = if (h >> 19) % 2 == 0 { [("default", DEFAULT_CFG), ("stable", DEFAULT_CFG | 32)] } else { [("stable", DEFAULT_CFG | 32), ("default", DEFAULT_CFG)] };
+    let mut carried: Option<walrus::ModuleConfig> = None;
+    for (label, mask) in order {
         arm_cpu_budget(CPU_BUDGET_S);
         let bytes = input.to_vec();
+        let reuse = if shared { carried.take() } else { None };
         let handle = std::thread::Builder::new()
             .stack_size(2 * 1024 * 1024)
             .spawn(move || {
                 crate::util::install_panic_hook();
                 // the configuration reaches the parser by one of the public routes: used directly, through a
                 // clone (what a tool that stores its configuration does), through Module::from_buffer_with_config
-                let cfg = cfg_from_mask(mask);
+                let cfg = match reuse {
+                    Some(mut c) => {
+                        c.only_stable_features(mask & 32 != 0);
+                        c
+                    }
+                    None => cfg_from_mask(mask),
+                };
                 let route = wv_gen::rng::fnv64(&bytes) % 4;
                 let cfg = match route {
                     1 => cfg.clone(),
@@ -39,11 +52,12 @@ pub fn run(input: &[u8], rec: &mut Rec) {
                     second
                 });
                 let dt = thread_cpu_ns() - t0;
-                (r, dt)
+                (r, dt, cfg)
             })
             .expect("spawn");
         match handle.join() {
-            Ok((r, dt)) => {
+            Ok((r, dt, cfg)) => {
+                carried = Some(cfg);
                 rec.push_n(&format!("gate.{}.cpu_ns", label), dt);
                 match r {
                     Ok(Ok(())) => rec.push_s(&format!("gate.{}", label), "ok"),
